@@ -7,8 +7,12 @@ META = {
 }
 FUNCTIONS = ['lentil.fourier.dft2', 'lentil.propagate._dft_alpha', 'lentil.propagate.propagate_dft',
              'lentil.wavefront.Wavefront.intensity#1', 'lentil.wavefront.Wavefront.intensity#2',
+             'lentil.wavefront.Wavefront.insert#1', 'lentil.field.insert#array',
              'lentil.propagate.propagate_fft#no-scratch', 'lentil.propagate.propagate_fft#scratch'] + list(_e.NORMALIZE)
 LEMMAS = list(_e.LEMMAS)
+
+
+SHARDS = {'lentil.field.insert#array': 3}
 
 
 def bounded(tier, seed):
